@@ -100,6 +100,17 @@ func main() {
 			fn := w.lookupFunc(n)
 			fmt.Printf("%s\t%s\n", n, filepath.Base(w.fset.Position(fn.Pos()).Filename))
 		}
+	case "closures":
+		w, err := loadWorld(repo)
+		if err != nil {
+			fmt.Fprintln(os.Stderr, err)
+			os.Exit(2)
+		}
+		for _, fn := range w.allFuncs {
+			if fn.Parent() != nil {
+				fmt.Printf("%s\t%s\n", w.funcName(fn), filepath.Base(w.fset.Position(fn.Pos()).Filename))
+			}
+		}
 	case "inlinable":
 		w, err := loadWorld(repo)
 		if err != nil {
